@@ -14,7 +14,8 @@
 (*   target labels, aux : one per-label filter parameter (min_point_numbers*)
 (*   | confidence_threshold | max_matchable_radii | max_x_position) given  *)
 (*   in shape auxShape : "list" | "scalar" | "zero" | "singleton" | "empty"*)
-(*   | "short" ("list" = the shape used by the other dimensions)]          *)
+(*   | "short" ("list" = the shape used by the other dimensions),          *)
+(*   prefix : "ok" | "missing" | "corrupt" (the mandatory label_prefix)]   *)
 (***************************************************************************)
 EXTENDS Integers, Sequences, FiniteSets
 
@@ -34,6 +35,9 @@ NoRange(c) == ~c.x /\ ~c.y /\ ~c.dmax /\ ~c.dmin
 
 Accept(c) ==
   /\ Supported(c)
+  \* label_prefix names one of the label families exactly ("ok"); any other value is rejected; it is mandatory for the perception
+  \* configuration (design.md) and defaults to autoware for the sensing configuration
+  /\ (c.prefix = "ok" \/ (c.mgr = "sensing" /\ c.prefix = "missing"))
   /\ IF c.mgr = "sensing" THEN c.nFrameIds = 1
      ELSE
        /\ c.task # "prediction"                       \* documented as under construction: raises
